@@ -207,5 +207,29 @@ fn y_matrix(
     })
 }
 
+// Verification hooks (read-only wrappers; compiled only with `--cfg alpha_g_verif`).
+#[cfg(alpha_g_verif)]
+pub fn verif_contiguous_ranges(
+    wire_signals: &[Option<Vec<f64>>; TPC_ANODE_WIRES],
+) -> Vec<(usize, usize)> {
+    contiguous_ranges(wire_signals)
+}
+#[cfg(alpha_g_verif)]
+pub fn verif_wire_range_deconvolution(
+    wire_signals: &[Option<Vec<f64>>; TPC_ANODE_WIRES],
+    range: (usize, usize),
+) -> Vec<(usize, Vec<f64>)> {
+    wire_range_deconvolution(wire_signals, range)
+}
+#[cfg(alpha_g_verif)]
+pub fn verif_wire_response() -> Vec<f64> {
+    WIRE_RESPONSE.clone()
+}
+#[cfg(alpha_g_verif)]
+pub fn verif_neighbor_factors() -> [f64; 5] {
+    NEIGHBOR_FACTORS
+}
+
+
 #[cfg(test)]
 mod tests;
